@@ -8,7 +8,7 @@ from harness.props import c03
 
 PROP = 'C09'
 RULE = ("writer-produced VBS and 1014-blocked files (1..many records, lengths around block boundaries) cut at EVERY byte "
-        "offset 0..len (exhaustive per file) and read with VbsReader; one case = one file with all its cuts. Non-trivial = "
+        "offset 0..len (exhaustive per file) and read with VbsReader, also records made of the filler byte x'40' / of x'00' ending one or two bytes into a block; one case = one file with all its cuts. Non-trivial = "
         "the file has a cut inside a length prefix, inside a record, inside fill and (blocked) inside a trailer — i.e. every "
         "file with at least one record; distinct = distinct (format, record lengths)")
 TRUSTED = c03.TRUSTED
@@ -29,6 +29,14 @@ def expected_count(recs, blocked, n, file_len):
         else:
             break
     return k
+
+
+def records_of(case):
+    """position-coded content, or (case['fill']) records made of ONE byte value — x'40' is both the blocking filler and
+    the EBCDIC blank, x'00' looks like the terminator"""
+    if 'fill' in case:
+        return [bytes([case['fill']]) * n for n in case['lens']]
+    return common.pc_records(case['lens'])
 
 
 def ipm_eval(case):
@@ -61,7 +69,7 @@ def impl_eval(case):
     from cardutil import mciipm
     if 'msgs' in case:
         return ipm_eval(case)
-    recs = common.pc_records(case['lens'])
+    recs = records_of(case)
     blocked = bool(case['b'])
     data = mciipm.vbs_list_to_bytes(recs, blocked=blocked)
     step = case.get('step', 1)
@@ -88,6 +96,9 @@ def model_line(case):
         from harness.props import c06
         data = c06.write_file([iu.dict_unwire(w) for w in case['msgs']], case['codec'], None, bool(case['b']))
         return (f"ipm.cuts\tpkg\t{case['codec']}\t{case['b']}\t{c03.max_len()}\thex:{data.hex()}\t{case.get('step', 1)}")
+    if 'fill' in case:
+        return (f"vbs.cutshex\t{'1' if case['b'] else '0'}\t{c03.max_len()}\t"
+                + ','.join(r.hex() for r in records_of(case)) + f"\t{case.get('step', 1)}")
     return (f"vbs.cuts\t{'1' if case['b'] else '0'}\t{c03.max_len()}\t" + ','.join(map(str, case['lens']))
             + f"\t{case.get('step', 1)}")
 
@@ -105,6 +116,12 @@ def explore(run, tier):
         lens = [rng.choice([1, 4, rng.randrange(1, 40), rng.randrange(400, 1100), rng.randrange(1000, 1020)])
                 for _ in range(k)]
         cases.append({'b': rng.randrange(2), 'lens': lens})
+    # records made of the filler byte / the terminator byte, ending one or two bytes into a block (4 + 1009 = 1013,
+    # 4 + 500 + 4 + 505 = 1013, 4 + 2021 = 2 * 1012 + 1, ...): a reader must not take record CONTENT for filler
+    for lens in ([1009], [1010], [1009, 5], [500, 505], [500, 506], [2021], [2022, 30], [1004, 1], [1004, 2], [3, 1006, 1010]):
+        for fill in (0x40, 0x00):
+            cases.append({'b': 1, 'lens': lens, 'fill': fill})
+        cases.append({'b': 0, 'lens': lens, 'fill': 0x40})
     if tier == 'thorough':
         for lens in ([6000, 6000], [3000, 17, 4000, 1]):
             for b in (0, 1):
